@@ -56,6 +56,13 @@ fn execute(sc: &Scenario, st: &mut RunStats) -> Vec<Violation> {
         let subj = &sc.subjects[run.subject];
         let b = &built[run.subject];
         let seeded = subj.wit.seed_nonce.is_some();
+        match subj.wit.seed_nonce {
+            Some(0) => st.probe("seed_is_zero"),
+            Some(1) => st.probe("seed_is_one"),
+            Some(2) => st.probe("seed_is_minus_one"),
+            Some(3) => st.probe("seed_is_two_to_252"),
+            _ => {},
+        }
         let mode = run.failing.clone().unwrap_or(RngMode::Healthy(run.stream));
         if run.failing.is_some() {
             st.fault(&format!("rng_{}", mode.kind()));
@@ -288,6 +295,10 @@ impl Check for C13 {
                 // the same seed protects several statements
                 wit.seed_nonce = Some(shared_seed);
             }
+            if cfg.m == 1 && rng.chance(1, 6) {
+                // boundary seeds: the scalars zero, one, minus one and 2^252
+                wit.seed_nonce = Some(rng.below(4));
+            }
             subjects.push(Subject { cfg, wit });
         }
         let ctxs: Vec<Context> = (0..rng.range(1, 2)).map(|_| Context::generate(rng)).collect();
@@ -366,6 +377,7 @@ impl Check for C13 {
             "seeded_run", "unseeded_run", "same_statement_reproved_under_other_stream", "same_seed_other_statement",
             "within_proof_oracles_under_failing_rng",
             "one_degenerate_read_in_otherwise_different_streams",
+            "seed_is_zero", "seed_is_one", "seed_is_minus_one", "seed_is_two_to_252",
         ]
     }
 }
